@@ -67,10 +67,17 @@ def _near(base: bytes, which: str) -> bytes:
         return base.replace(b"\xe9", b"\xe8") if b"\xe9" in base else base.replace(b"shortFn", b"sh\xf8rtFn")
     if which == "comment-line-added":
         return lines[0] + b"\n" + (b"# more" if base is _NB_PY else b"// more") + b"\n" + b"\n".join(lines[1:])
+    if which == "edit-beyond-64k":
+        # the file grows a 70 kB comment block at the top; the only later change is one character of a name at its very end
+        pad = (b"# " if base is _NB_PY else b"// ") + b"p" * 70 + b"\n"
+        return pad * 1000 + base.replace(b"_fn", b"_fN").replace(b"shortFn", b"shortFN")
+    if which == "padded-64k":
+        pad = (b"# " if base is _NB_PY else b"// ") + b"p" * 70 + b"\n"
+        return pad * 1000 + base
     raise ValueError(which)
 
 
-NEAR_EDITS = ["blank-line-top", "blank-line-after-header", "trailing-blanks-and-blank-line", "name-case", "other-invalid-byte", "comment-line-added"]
+NEAR_EDITS = ["edit-beyond-64k", "blank-line-top", "blank-line-after-header", "trailing-blanks-and-blank-line", "name-case", "other-invalid-byte", "comment-line-added"]
 
 
 
@@ -367,7 +374,8 @@ def _block(block, agg):
                 agg.violation(k, dict({kk: vv for kk, vv in sig.items() if kk != "at_step"}, family="sibling"), case, d)
     elif kind == "near":
         _, p, other, edit = block
-        for first, second in (("nb", "nv:" + edit), ("nv:" + edit, "nb")):
+        for first, second in ((("nv:padded-64k", "nv:edit-beyond-64k"), ("nv:edit-beyond-64k", "nv:padded-64k")) if edit == "edit-beyond-64k"
+                              else (("nb", "nv:" + edit), ("nv:" + edit, "nb"))):
             seq = [("write", other, "nb"), ("write", p, first), ("scan",), ("write", p, second), ("scan",), ("scan",)]
             viol, n_scans = run_history([p, other], [first, second], seq)
             case = {"part": "history", "paths": [p, other], "contents": [first, second], "ops": [list(o) for o in seq]}
